@@ -1,5 +1,9 @@
 SPECIFICATION Spec
 CONSTANTS MaxCalls = 4
+          SideCalls = 2
+          ExtMax = 2
+          ExtDepth = 3
           ZeroStatusFix = TRUE
-INVARIANTS TypeOK L2ImpliesL1 HandlerOnlyAfterGate NoClientBytesBeforeCheckInStrict Emit
+          InfoFix = FALSE
+INVARIANTS TypeOK L2ImpliesL1 HandlerOnlyAfterGate NoClientBytesBeforeCheckInStrict StrictPanicSilent Emit
 CHECK_DEADLOCK FALSE
